@@ -31,7 +31,7 @@ package key
 //@   modifies key.version, e.w.sdata, e.w.slen, e.w.nmsg, e.w.msg
 
 //@ func v1DecodeRaw
-//@   ensures [C12.dec.raw+C01+C09] len(raw) > 1 ==> result.keyType == raw[0] && sameSlice(result.key, raw[1:])
+//@   ensures [C12.dec.raw+C01+C07+C09] len(raw) > 1 ==> result.keyType == raw[0] && sameSlice(result.key, raw[1:])
 //@   ensures len(raw) <= 1 ==> result.keyType == 0 && isNilSlice(result.key)
 //@   modifies nothing
 
@@ -39,7 +39,7 @@ package key
 // returns type t and the key bytes k (as the sub-slice raw[5:]).
 //@ func DecodeBytes
 //@   results k, err
-//@   ensures [C12.dec.rt+C01+C09]  len(raw) >= 6 && raw[0] == 1 ==> err == nil && k.version == 1 && k.KeyType == raw[4] && sameSlice(k.Key, raw[5:])
+//@   ensures [C12.dec.rt+C01+C07+C09]  len(raw) >= 6 && raw[0] == 1 ==> err == nil && k.version == 1 && k.KeyType == raw[4] && sameSlice(k.Key, raw[5:])
 //@   ensures [C12.dec.ok]  len(raw) >= 4 && raw[0] == 1 ==> err == nil
 //@   ensures len(k.Key) <= len(raw)
 //@   ensures [C12.dec.short] err == nil && len(raw) < 6 ==> k.KeyType == 0
